@@ -125,6 +125,9 @@ func c17Body(c *C17Case) Verdict {
 	for r := 0; r < sc.runs(); r++ {
 		rx := x.run(context.Background())
 		ry := y.run(context.Background())
+		if runaway(rx.Panic) || runaway(ry.Panic) {
+			return ok(false, "scenario-did-not-terminate") // C03/C10 territory, see runaway()
+		}
 		if rx.Panic != "" || ry.Panic != "" {
 			return bad("C17:panic", "panic: %q / twin %q", rx.Panic, ry.Panic)
 		}
